@@ -433,7 +433,21 @@ func applyMetricsOperatorOnSegments(mQuery *structs.MetricsQuery, allSearchReqes
 				continue
 			}
 
-			metricNames, err = getRegexMatchedMetricNames(allMSearchReqs[0], mQuery.MetricNameRegexPattern, mQuery.MetricOperator)
+			// The segments of one tags tree holder do not all know the same metric names.
+			seenNames := make(map[string]struct{})
+			for _, mSeg := range allMSearchReqs {
+				var segNames []string
+				segNames, err = getRegexMatchedMetricNames(mSeg, mQuery.MetricNameRegexPattern, mQuery.MetricOperator)
+				if err != nil {
+					break
+				}
+				for _, mName := range segNames {
+					if _, ok := seenNames[mName]; !ok {
+						seenNames[mName] = struct{}{}
+						metricNames = append(metricNames, mName)
+					}
+				}
+			}
 			if err != nil {
 				log.Errorf("qid=%d, applyMetricsOperatorOnSegments: Error getting regex matched metric names. Regex Pattern: %v, Error=%v", qid, mQuery.MetricNameRegexPattern, err)
 				continue
